@@ -12,8 +12,13 @@ correspondence run, which prints EVERY live iovec after EVERY op on both sides),
 `frame_valid`: after any op on X every other object Y still has all its slices in live memory,
 because Y's chunks are held by Y's OWN anchors (C05 `exposed_live`), whatever happened to X
 (dropped, cleared, consumed, taken).
+
+Content half (part 2, helper lemmas in `Woodpile/Proofs/IovecHeap.lean`, `IovecPriv.lean`):
+`frame_heap`, `pending_private`, `clone_independent` — the bytes Y reads through the heap are
+unchanged by every op on X ≠ Y, for histories that clone only iovecs with no placeholder pending
+(the property's premise; shown necessary by the last example).
 -/
-import Woodpile.Proofs.IovecHeap
+import Woodpile.Proofs.IovecPriv
 
 namespace Woodpile.Props.C20
 open Woodpile.Iovec Woodpile.Arena
@@ -118,25 +123,33 @@ theorem clone_independent_nonfill {w w' : World} {caps : Nat → Nat} {op : Op} 
     (hY : w.iov j = some vY) {s : Slice} (hs : s ∈ vY.slices) : w'.sliceBytes s = w.sliceBytes s :=
   step_bytes_unchanged hg h hnb (Or.inl ⟨j, vY, hY, hs⟩) ((hg.reachable.inv.iovOk j vY hY).extOk s hs)
 
-/-- `clone_independent` for `backfill`, GIVEN `pending_private` (`PendingPrivate w`: the byte range of
-every pending placeholder of every iovec is covered by no slice of any other object): a backfill on `X`
-changes no byte of any slice of any other iovec `Y`.
+/-- `pending_private` (invariant).  `CReach w caps` = `w` is reachable by a history in which every
+`clone i` found iovec `i` with NO placeholder pending (the property's premise; any history accepted by
+`World.runC` is one: `creach_has_history`).  In every such world, for every iovec `X` and every pending
+backref of `X` that designates a byte range (its slice is still buffered), NO slice of any OTHER iovec
+and no detached anchored slice covers a byte of that range; and the backref bookkeeping is sane
+(`BackrefsOk`: targets in range, sorted by slice index — so `advance_slices` never shortens a
+placeholder's slice — and each range fits in its owned target slice).  Tokens need no premise: in
+the model `backfill` refuses a token that is not one of the target iovec's own pending backrefs. -/
+theorem pending_private {w : World} {caps : Nat → Nat} (hr : CReach w caps) :
+    PendingPrivate w ∧ ∀ i v, w.iov i = some v → BackrefsOk v :=
+  ⟨hr.priv.priv, hr.priv.wf⟩
 
-PARTIAL (name: `_partial`): what is missing for the full `clone_independent` is the lemma
-  `pending_private : ∀ history in which `clone i` is only applied when iovec `i` has no pending
-   placeholder, PendingPrivate w`
-(an owner-tracking invariant: a placeholder range is fresh when registered — `frame_heap` /
-`C05.no_overlap` — and afterwards slices of OTHER objects arise only as sub-ranges / in-place merges of
-slices of other objects, from detached slices, or from fresh allocations; `clone` is the one op that
-copies X's slices into another object, and it is excluded while X has a pending placeholder; it also
-needs the backref bookkeeping invariant that pending backrefs are sorted by slice index, so that
-`advance_slices` never shortens a placeholder's slice).  Not proved here; the correspondence run's
-per-object shadow oracle is what covers it on the real code. -/
-theorem clone_independent_backfill_partial {w w' : World} {caps : Nat → Nat} {X b : Nat} {bs : List UInt8}
-    (hg : GReach w caps) (hp : PendingPrivate w) (h : w.step (.backfill X b bs) = some w') {j : Nat} {vY : Iov}
-    (hj : j ≠ X) (hY : w.iov j = some vY) {s : Slice} (hs : s ∈ vY.slices) :
-    w'.sliceBytes s = w.sliceBytes s :=
-  backfill_bytes_unchanged hg hp h (Or.inl ⟨j, vY, hj, hY, hs⟩) ((hg.reachable.inv.iovOk j vY hY).extOk s hs)
+/-- Histories accepted by `World.runC` (every op succeeds, every `clone` finds no pending placeholder)
+are `CReach`. -/
+theorem creach_has_history {pol : Policy} {tun : Tuning} {ops : List Op} {w : World}
+    (h : (World.init pol tun).runC ops = some w) : ∃ caps, CReach w caps := creach_of_runC h
+
+/-- `clone_independent`, FULL: in a history that clones only iovecs with no placeholder pending, ANY
+operation on X — pushes that extend or merge slices, placeholder registration and BACKFILL,
+consumption, clear, drop, take, arena traffic — leaves the bytes of every slice (in particular the
+stable bytes) of every iovec Y it does not name unchanged; together with `frame_struct` (Y's model
+value is unchanged) and `frame_valid` (Y's slices stay in live memory), Y's observable contents are
+unchanged and valid. -/
+theorem clone_independent {w w' : World} {caps : Nat → Nat} {op : Op} (hr : CReach w caps)
+    (h : w.step op = some w') {j : Nat} {vY : Iov} (hY : w.iov j = some vY) (hj : op.iovTarget ≠ some j)
+    {s : Slice} (hs : s ∈ vY.slices) : w'.sliceBytes s = w.sliceBytes s :=
+  clone_independent_full hr h hY hj hs
 
 end Woodpile.Props.C20
 
@@ -169,5 +182,20 @@ example : ((World.init pol tun).run [.new, .new, .newArena, .pushCopy 0 [1, 2], 
     .swapArena 1 1, .pushCopy 1 [3, 4], .pushCopy 0 [5]]).map
     (fun w => ((w.iov 0).map (·.slices), (w.iov 1).map (·.slices), w.liveChunks)) =
     some (some [⟨.chunk 0, 0, 2⟩, ⟨.chunk 1, 0, 1⟩], some [⟨.chunk 0, 2, 2⟩], [0, 1]) := by decide
+
+-- The premise is met and matters.  Clone with nothing pending, THEN register + backfill on the original:
+-- the clone still reads its snapshot …
+example : ((World.init pol tun).runC [.new, .pushCopy 0 [1, 2, 3], .clone 0, .register 0 [0, 0],
+    .backfill 0 0 [8, 9]]).map
+    (fun w => ((w.iov 1).map (fun v => v.slices.flatMap w.sliceBytes),
+               (w.iov 0).map (fun v => v.slices.flatMap w.sliceBytes))) =
+    some (some [1, 2, 3], some [1, 2, 3, 8, 9]) := by decide
+-- … whereas a clone taken WHILE the placeholder is pending is rejected by the premise (`runC` = none) …
+example : ((World.init pol tun).runC [.new, .pushCopy 0 [1], .register 0 [0, 0], .clone 0]).isNone = true := by
+  decide
+-- … and rightly so: without the premise the original's backfill DOES change the clone's bytes.
+example : ((World.init pol tun).run [.new, .pushCopy 0 [1], .register 0 [0, 0], .clone 0,
+    .backfill 0 0 [8, 9]]).map (fun w => (w.iov 1).map (fun v => v.slices.flatMap w.sliceBytes)) =
+    some (some [1, 8, 9]) := by decide
 
 end Woodpile.Props.C20
